@@ -127,6 +127,62 @@ def run_limit(rec, seed, shard, nshards, tier):
     core.hyp_run(rec, prop_limit, cases(12 if tier == 'quick' else 40), n, seed)
 
 
+# ---------------------------------------------------------------- --limit on a resumed session
+def prop_resume_limit(case, rec):
+    """A session is interrupted, then resumed twice from the same saved state: unlimited and with -n N. The limited resume
+    must write the first N lines of the unlimited resume."""
+    import shutil
+    m, flags, j = case['model'], case['flags'], case['quit_at']
+    root = _root()
+    rsmodel.write_ruleset(os.path.join(root, 'Rules', 'T'), m)
+    a = guard(case, session.run_main, root, argv_for(flags), [(('guess', j), 'q')])
+    if not a.saved_on_quit or a.exhausted:
+        rec.skip('quit_not_noticed_before_the_end')
+        return
+    keep = {}
+    for ext in ('.sav', '.omn'):
+        pth = os.path.join(root, 's' + ext)
+        if os.path.exists(pth):
+            keep[pth] = open(pth, 'rb').read()
+
+    def restore():
+        for ext in ('.sav', '.omn'):
+            pth = os.path.join(root, 's' + ext)
+            if pth in keep:
+                with open(pth, 'wb') as f:
+                    f.write(keep[pth])
+            elif os.path.exists(pth):
+                os.remove(pth)
+
+    bu = guard(case, session.run_main, root, ['-r', 'T', '-s', 's', '--load'])
+    total = len(bu.lines)
+    in_remainder = sum(1 for g in bu.guess_pop if g == 0)
+    ns = case.get('ns') or sorted(set([1, 2, 3, in_remainder - 1, in_remainder, in_remainder + 1, total - 1, total, total + 1] + case.get('extra_ns', [])))
+    for n in ns:
+        if n < 1:
+            continue
+        restore()
+        sub = dict(case, ns=[n])
+        r = guard(sub, session.run_main, root, ['-r', 'T', '-s', 's', '--load', '-n', str(n)])
+        cls = ['resume_limit'] + (['resume_limit_inside_restored_markov_remainder'] if 0 < n < in_remainder else [])
+        rec.case({'quit_at': j, 'N': n, 'resumed_total': total, 'remainder': in_remainder}, total >= 2 and n < total, cls, key=[m, flags, j, n])
+        if r.lines != bu.lines[:n]:
+            raise Violation('limit_on_resume', f'quit after guess {j}, --load -n {n}: {len(r.lines)} lines written, expected {min(n, total)} = the first lines of the '
+                            f'unlimited resume (its first {in_remainder} lines are the restored Markov remainder); tail {r.lines[-3:]} vs {bu.lines[:n][-3:]}', sub)
+
+
+@st.composite
+def resume_limit_cases(draw):
+    c = draw(cases(12))
+    c['quit_at'] = draw(st.integers(1, 15))
+    return c
+
+
+def run_resume_limit(rec, seed, shard, nshards, tier):
+    n = {'quick': 25, 'thorough': 500}[tier]
+    core.hyp_run(rec, prop_resume_limit, resume_limit_cases(), n, seed)
+
+
 # ---------------------------------------------------------------- CLI subprocess
 _CLI = None
 
@@ -200,5 +256,6 @@ def run_cli_part(rec, seed, shard, nshards, tier):
 
 PARTS = [
     Part('limit_every_n', run_limit, prop_limit, {'quick': 8, 'thorough': 16}),
+    Part('limit_on_resumed_session', run_resume_limit, prop_resume_limit, {'quick': 6, 'thorough': 16}),
     Part('cli_subprocess', run_cli_part, prop_cli, {'quick': 4, 'thorough': 8}),
 ]
